@@ -171,6 +171,9 @@ func run(c Case, r *pbt.R) {
 								written[name] = append(written[name], pl)
 								mu.Unlock()
 							}
+							if i%512 == 511 {
+								scen.Settle() // long bursts: let the receiver drain its queue (8192 datagrams)
+							}
 						}
 					case "idle":
 						time.Sleep(time.Duration(op.N) * time.Millisecond)
@@ -224,6 +227,12 @@ func run(c Case, r *pbt.R) {
 		dec := scen.Decoder13(p, gens)
 		if dec == nil {
 			r.Failf("C20|harness|decoder", "no decoder")
+
+			return
+		}
+		if n := p.Net.Overflowed(); n > 0 {
+			// which datagrams a full receive queue dropped depends on goroutine scheduling: not judged
+			r.Classf("harness-receive-queue-overflow")
 
 			return
 		}
